@@ -43,29 +43,91 @@ def S64(x):
     return x - (1 << 64) if x >> 63 else x
 
 
-STMT2D = re.compile(r" y\[:,(\d+)\] \|= \(x\[:,(\d+)\] & (-?\d+)\)(?:(<<|>>)(\d+))?(?:&(\d+))?")
-TERM1D = re.compile(r"\(\(x&(-?\d+)\)(?:(<<|>>)(\d+))?(?:&(\d+))?\)")
+def _const(node):
+    """integer constant (possibly negated) or None"""
+    try:
+        v = ast.literal_eval(node)
+    except (ValueError, SyntaxError):
+        return None
+    return v if isinstance(v, int) and not isinstance(v, bool) else None
+
+
+def _word_ref(node, var):
+    """`x[:, k]` (2-D) or plain `x` (1-D) -> source word index, else None"""
+    if isinstance(node, ast.Name) and node.id == var:
+        return 0
+    if isinstance(node, ast.Subscript) and isinstance(node.value, ast.Name) and node.value.id == var:
+        sl = node.slice
+        if isinstance(sl, ast.Tuple) and len(sl.elts) == 2 and isinstance(sl.elts[0], ast.Slice):
+            return _const(sl.elts[1])
+    return None
+
+
+def _parse_term(node, var):
+    """(word & MASK) [<< k | >> k] [& POST]  ->  (src, mask, shl, shr, post) or None (structural, whitespace/paren tolerant)"""
+    post = None
+    if isinstance(node, ast.BinOp) and isinstance(node.op, ast.BitAnd) and _const(node.right) is not None and not (_word_ref(node.left, var) is not None):
+        post = U(_const(node.right))
+        node = node.left
+    shl = shr = 0
+    if isinstance(node, ast.BinOp) and isinstance(node.op, (ast.LShift, ast.RShift)) and _const(node.right) is not None:
+        if isinstance(node.op, ast.LShift):
+            shl = _const(node.right)
+        else:
+            shr = _const(node.right)
+        node = node.left
+    if isinstance(node, ast.BinOp) and isinstance(node.op, ast.BitAnd):
+        src, mask = _word_ref(node.left, var), _const(node.right)
+        if src is None:
+            src, mask = _word_ref(node.right, var), _const(node.left)
+        if src is not None and mask is not None and shl >= 0 and shr >= 0 and not (shl and shr):
+            return src, U(mask), shl, shr, post
+    return None
+
+
+def _or_terms(node):
+    if isinstance(node, ast.BinOp) and isinstance(node.op, ast.BitOr):
+        return _or_terms(node.left) + _or_terms(node.right)
+    return [node]
 
 
 def parse_routine(src: str):
-    """Generated source text -> IR [(src, dst, mask, shl, shr, post)], or None when it does not fit the grammar."""
+    """Generated source text -> IR [(src, dst, mask, shl, shr, post)], or None when it does not fit the statement
+    grammar `y[:,d] |= (x[:,s] & M) [<<k | >>k] [& P]` / `lambda x: t1 | t2 | ...` (parsed with `ast`)."""
+    try:
+        tree = ast.parse(src)
+    except SyntaxError:
+        return None
     out = []
-    if src.startswith("def f_(x,y):"):
-        for ln in src.split("\n")[1:]:
-            m = STMT2D.fullmatch(ln)
-            if not m:
+    if len(tree.body) == 1 and isinstance(tree.body[0], ast.FunctionDef):
+        fn = tree.body[0]
+        if len(fn.args.args) != 2:
+            return None
+        xv, yv = fn.args.args[0].arg, fn.args.args[1].arg
+        for st in fn.body:
+            if isinstance(st, ast.Pass):
+                continue
+            if not (isinstance(st, ast.AugAssign) and isinstance(st.op, ast.BitOr)):
                 return None
-            dst, s, mask, op, k, post = m.groups()
-            out.append((int(s), int(dst), U(int(mask)), int(k) if op == "<<" else 0, int(k) if op == ">>" else 0, None if post is None else U(int(post))))
+            dst = _word_ref(st.target, yv)
+            if dst is None:
+                return None
+            for t in _or_terms(st.value):
+                term = _parse_term(t, xv)
+                if term is None:
+                    return None
+                out.append((term[0], dst, term[1], term[2], term[3], term[4]))
         return out
-    if src.startswith("f_ = lambda x: "):
-        body = src[len("f_ = lambda x: ") :]
-        for t in body.split(" | "):
-            m = TERM1D.fullmatch(t)
-            if not m:
+    if len(tree.body) == 1 and isinstance(tree.body[0], ast.Assign) and isinstance(tree.body[0].value, ast.Lambda):
+        lam = tree.body[0].value
+        if len(lam.args.args) != 1:
+            return None
+        xv = lam.args.args[0].arg
+        for t in _or_terms(lam.body):
+            term = _parse_term(t, xv)
+            if term is None or term[0] != 0:
                 return None
-            mask, op, k, post = m.groups()
-            out.append((0, 0, U(int(mask)), int(k) if op == "<<" else 0, int(k) if op == ">>" else 0, None if post is None else U(int(post))))
+            out.append((0, 0, term[1], term[2], term[3], term[4]))
         return out
     return None
 
@@ -155,6 +217,34 @@ def witness_inputs(prog, p, w, n, L):
     return out
 
 
+def basis_test(f, p, w, n, L, one_d):
+    """Executes the real routine on the zero input and on all 64*L single-bit inputs in one batched call.  A routine built
+    from `& constant`, shifts and `|` distributes over bitwise OR, so for such routines this test is EXHAUSTIVE:
+    f(x) = f(0) | OR_i f(e_i).  Returns None or a failing input (list of words)."""
+    xs = [[0] * L] + [[(1 << b) if d == word else 0 for word in range(L)] for d in range(L) for b in range(64)]
+    if one_d:
+        arr = np.array([S64(r[0]) for r in xs], dtype=np.int64)
+        ys = [[int(v)] for v in f(arr)]
+    else:
+        xt = torch.tensor([[S64(v) for v in r] for r in xs], dtype=torch.int64)
+        yt = torch.zeros_like(xt)
+        f(xt, yt)
+        ys = yt.tolist()
+    # expected image of a single input bit g: the output bit t with srcPos(t) = g (none for padding bits)
+    dest = {}
+    for t in range(n * w):
+        dest[p[t // w] * w + t % w] = t
+    if any(U(v) for v in ys[0]):
+        return xs[0]
+    for g in range(64 * L):
+        want = [0] * L
+        if g in dest:
+            want[dest[g] // 64] = 1 << (dest[g] % 64)
+        if [U(v) for v in ys[g + 1]] != want:
+            return xs[g + 1]
+    return None
+
+
 def check_routine(ck: Check, w, n, p, one_d):
     drv = ck.driver()
     enc = StringEncoder(code_width=w, n=n)
@@ -180,6 +270,15 @@ def check_routine(ck: Check, w, n, p, one_d):
         comp = drv.ask(f"prog.compile {w} {n} ; {pl}")
         if comp != " | ".join(stmt_line(s) for s in prog):
             ck.correspondence_break("generated routine differs from the model compiler's output", {"case": case, "model": comp[:400], "impl": sl[:400]})
+    bad = basis_test(f, p, w, n, L, one_d)
+    ck.evaluations += 64 * L + 1
+    if bad is not None:
+        ck.violation(
+            signature=f"C02/routine/{'1d' if one_d else '2d'}/w={w}",
+            what="generated bit-permutation routine differs from the permutation on a single-bit input",
+            replay={"case": case, "input_words": bad, "expected": spec_permute_bits(p, w, n, L, bad)},
+        )
+        return False
     # execute the real routine on structured + random words against the bit-level specification;
     # when the certificate failed, first on the witnesses the rejected output bits imply (targeted search)
     targeted = witness_inputs(prog, p, w, n, L) if (prog is not None and not certified) else []
@@ -455,7 +554,7 @@ def main():
         m = rng.choice([1, 2, n])
         # moduli: small, the documented extremes, and values around the int64 overflow boundary n*(m-1)^2 = 2^63
         boundary = int((2**63 / n) ** 0.5)
-        modulo = rng.choice([0, 2, 3, 10, 2**31 - 1, 2**31, 2**31 - 1, 65537, 2**30 - 1, 2**30 - 35, 2**29 + 3, min(2**31, boundary + rng.randint(-3, 3)), min(2**31, boundary + boundary // 7), max(2, boundary - boundary // 9)])
+        modulo = rng.choice([0, 2, 3, 10, 2**31 - 1, 2**31, 2**31 - 1, 65537, 2**30 - 1, 2**30 - 35, 2**29 + 3, min(2**31, boundary + rng.randint(-3, 3)), min(2**31, boundary + boundary // 7), min(2**31, max(2, boundary - boundary // 9))])
         if modulo > 0:
             M = [rng.choice([0, 1, modulo - 1, rng.randrange(modulo)]) for _ in range(n * n)]
             S = [rng.choice([0, 1, modulo - 1, rng.randrange(modulo)]) for _ in range(n * m)]
